@@ -159,11 +159,15 @@ def rule_event_folding(ctx):
     ro = ctx.prog.func("watcher.Watcher.run_once")
     for tr, st in flow.paths_of(ro):
         names = [(k, e[1]) for k, e in enumerate(tr) if e[0] == "call"]
+        # the reset of a set is a clear() or an in-place narrowing (`self.deleted &= unsettled`, R-C14-6)
+        names += [(k, f"reset {e[1]}") for k, e in enumerate(tr) if e[0] == "assign" and e[1] in ("self.deleted", "self.updated")]
+        names += [(k, f"reset {e[1][:-len('.clear')]}") for k, e in enumerate(tr) if e[0] == "call" and e[1] in ("self.deleted.clear", "self.updated.clear")]
+        names.sort()
         idx = {n: k for k, n in reversed(names)}
-        need = ["self.workflow.get_file_hashes", "gather_hashes", "self.workflow.process_nglob_changes", "self.deleted.clear", "self.updated.clear", "self.end_watching.clear", "self.done_watching.set"]
+        need = ["self.workflow.get_file_hashes", "gather_hashes", "self.workflow.process_nglob_changes", "reset self.deleted", "reset self.updated", "self.end_watching.clear", "self.done_watching.set"]
         pos = [idx.get(n) for n in need]
         ok = all(p is not None for p in pos) and pos == sorted(pos)
-        ctx.check(ok, ro.fq, "hash refresh -> glob reaction -> clear sets -> signal done", f"order {[n for _, n in names if n in need]}", "order kept")
+        ctx.check(ok, ro.fq, "hash refresh -> glob reaction -> reset sets -> signal done", f"order {[n for _, n in names if n in need]}", "order kept")
     src = _norm(ast.unparse(ro.node))
     ctx.check("if new_file_hash == old_hashes[path]: await self.reporter('UNCHANGED', path) self.updated.discard(path)" in src, ro.fq, "unchanged files are pruned before the glob reaction", "a touched-but-unchanged file counts as a new glob match", "pruned")
     ctx.check("self.workflow.process_nglob_changes(self.deleted, self.updated)" in src, ro.fq, "glob reaction gets (deleted, updated) in this order", "arguments swapped", "ok")
@@ -274,15 +278,67 @@ def rule_subtree_watches_go_with_directory(ctx):
     ctx.check(used or not ok, cl.fq, "the subtree prefix ends in a separator", "the prefix test compares with the bare directory name: a sibling whose name starts with it loses its watch as well", "path / ''")
 
 
+def rule_unsettled_paths_kept(ctx):
+    """R-C14-6: a path whose hash the watcher could not compute stays recorded for the next rebuild.
+
+    gather_hashes leaves such a path out of its result and the hash job does not touch the database, so the
+    workflow keeps the old state; inotify sends no further event.  If the watcher forgets the path, the second
+    rebuild finds nothing wrong (status 0, cleanup runs) while every restart rescans the file and fails again.
+    """
+    ro = ctx.prog.func("watcher.Watcher.run_once")
+    src = ast.unparse(ro.node)
+    # request and result of the hashing step
+    req = res = None
+    for n in ast.walk(ro.node):
+        if isinstance(n, ast.Assign) and len(n.targets) == 1 and isinstance(n.targets[0], ast.Name):
+            v = n.value.value if isinstance(n.value, ast.Await) else n.value
+            if isinstance(v, ast.Call) and callee_name(v) == "get_file_hashes":
+                req = n.targets[0].id
+            if isinstance(v, ast.Call) and callee_name(v) == "gather_hashes":
+                res = n.targets[0].id
+    if req is None or res is None:
+        raise AnalysisError("Watcher.run_once: hashing request/result not found")
+    for attr in ("deleted", "updated"):
+        clears = [c for c in calls_in(ro.node) if isinstance(c.func, ast.Attribute) and c.func.attr == "clear" and ast.unparse(c.func.value) == f"self.{attr}"]
+        rebinds = [a for a in ast.walk(ro.node) if isinstance(a, ast.Assign) and any(ast.unparse(t) == f"self.{attr}" for t in a.targets) and not _mentions_names(a.value, (req, res))]
+        keeps = []
+        for a in ast.walk(ro.node):
+            if isinstance(a, ast.AugAssign) and ast.unparse(a.target) == f"self.{attr}" and isinstance(a.op, ast.BitAnd):
+                keeps.append(a.value)
+            if isinstance(a, ast.Call) and isinstance(a.func, ast.Attribute) and a.func.attr == "intersection_update" and ast.unparse(a.func.value) == f"self.{attr}" and a.args:
+                keeps.append(a.args[0])
+        ok_keep = False
+        for k in keeps:
+            expr = k
+            if isinstance(k, ast.Name):
+                defs = [a.value for a in ast.walk(ro.node) if isinstance(a, ast.Assign) and len(a.targets) == 1 and isinstance(a.targets[0], ast.Name) and a.targets[0].id == k.id]
+                expr = defs[-1] if defs else k
+            diff = [b for b in ast.walk(expr) if isinstance(b, ast.BinOp) and isinstance(b.op, ast.Sub) and _mentions_names(b.left, (req,)) and _mentions_names(b.right, (res,))]
+            diff += [c for c in ast.walk(expr) if isinstance(c, ast.Call) and isinstance(c.func, ast.Attribute) and c.func.attr == "difference" and _mentions_names(c.func.value, (req,)) and c.args and _mentions_names(c.args[0], (res,))]
+            if diff:
+                ok_keep = True
+        ctx.check(ok_keep and not clears and not rebinds, ro.fq, f"self.{attr} keeps the paths that were requested but not hashed", f"self.{attr} is reset without keeping the paths that gather_hashes could not settle (clear()={len(clears)}, rebinding={len(rebinds)}, intersections with requested-minus-hashed={ok_keep}): the first rebuild after the failure drains, the second one reports success and cleans up, a restart fails again", f"&= ({req} - {res})", where=ctx.where_of(ro))
+    gh = ctx.prog.func("hash_queue.gather_hashes")
+    ctx.check("absent" in (ast.get_docstring(gh.node) or "") or "continue" in ast.unparse(gh.node), gh.fq, "a path that cannot be hashed is left out of the result", "contract changed", "absent from the result")
+
+
+def _mentions_names(node, names):
+    return any(isinstance(x, ast.Name) and x.id in names for x in ast.walk(node))
+
+
 RULES = [
     Rule("R-C14-1", "same reactions on both sides", rule_same_reactions, min_instances=10),
     Rule("R-C14-2", "same relevance filter", rule_same_filter, min_instances=5),
     Rule("R-C14-3", "event folding keeps the sets disjoint", rule_event_folding, min_instances=15),
     Rule("R-C14-5", "a removed directory takes the watches of its subtree with it", rule_subtree_watches_go_with_directory, min_instances=3),
+    Rule("R-C14-6", "the watcher does not forget what it could not hash", rule_unsettled_paths_kept, min_instances=3),
     Rule("R-C14-4", "the watcher looks where a restart looks", rule_watched_where_restart_looks, min_instances=6),
 ]
 
 MUTANTS = [
+    Mutant("watcher-forgets-unsettled", "watcher.py", in_function("Watcher.run_once", lambda t: t.replace("        self.deleted &= unsettled\n        self.updated &= unsettled\n", "        self.deleted.clear()\n        self.updated.clear()\n", 1) if "self.deleted &= unsettled" in t else None), ("R-C14-6",)),
+    Mutant("watcher-forgets-unsettled-updates", "watcher.py", in_function("Watcher.run_once", replace_once("        self.updated &= unsettled\n", "        self.updated.clear()\n")), ("R-C14-6",)),
+    Mutant("unsettled-is-what-was-hashed", "watcher.py", in_function("Watcher.run_once", replace_once("        unsettled = set(old_hashes) - set(new_hashes)\n", "        unsettled = set(new_hashes) - set(old_hashes)\n")), ("R-C14-6",)),
     Mutant("subtree-watches-kept", "watcher.py", in_function("AsyncInotifyWrapper.change_loop", lambda t: t.replace("                        if sub_watch is not None and sub_path.startswith(prefix):\n                            with contextlib.suppress(OSError):\n                                self.inotify.rm_watch(sub_watch)\n                            self.watches[sub_path] = None\n", "                        pass\n", 1) if "sub_path.startswith(prefix)" in t else None), ("R-C14-5",)),
     Mutant("subtree-prefix-without-separator", "watcher.py", in_function("AsyncInotifyWrapper.change_loop", replace_once('                    prefix = path / ""\n', "                    prefix = path\n")), ("R-C14-5",)),
     Mutant("subtree-watches-not-unset", "watcher.py", in_function("AsyncInotifyWrapper.change_loop", replace_once("                            self.watches[sub_path] = None\n", "                            pass\n")), ("R-C14-5",)),
